@@ -214,6 +214,44 @@ class AddSaveConcatenated(Contract):
             ctx.oblige("every-other-hole-stays-listed", all(o in listed for o in e["others"]), note=f"stored child list: {listed}")
 
 
+class OpenOnOpenWorkspace(Contract):
+    """open() on a workspace that is already open changes nothing: same handle, same registries
+    (entities obtained earlier stay registered, so their deferred changes still reach the file)."""
+    target = "geoh5py/workspace/workspace.py::Workspace.open"
+    variant = "already-open"
+    props = ("C11", "C09", "C01")
+    lenient = True
+
+    def setup(self, ctx):
+        import h5py
+
+        from geoh5py.workspace import Workspace
+
+        me = Opaque("self", cls=Workspace)
+        h = Opaque("handle", cls=h5py.File)
+        ctx.path.assume(h.truth_var())
+        ctx.path.assume(~h.none_var())
+        me.attrs["_geoh5"] = h
+        regs = {}
+        for reg in ("_data", "_objects", "_groups", "_types", "_property_groups"):
+            regs[reg] = me.attrs[reg] = Opaque("live:" + reg)
+        me.attrs["_io_call"] = Opaque("_io_call")
+        me.attrs["_io_call"].maybe_method = lambda I, a, kw: (I.event("io"), Opaque("x"))[1]
+        me.attrs["fetch_or_create_root"] = Opaque("fetch_or_create_root")
+        me.attrs["fetch_or_create_root"].maybe_method = lambda I, a, kw: I.event("load-tree")
+        ctx.env.update(me=me, regs=regs, h=h)
+        return [me], {}
+
+    def post(self, ctx, result):
+        e = ctx.env
+        me = e["me"]
+        ctx.oblige("the-open-handle-is-kept", me.attrs.get("_geoh5") is e["h"])
+        for reg, val in e["regs"].items():
+            ctx.oblige(f"registry-{reg}-is-left-alone", me.attrs.get(reg) is val, note="entities obtained before the redundant open() are no longer registered")
+        ctx.oblige("nothing-is-read-or-written", not [k for k, p in ctx.path.events if k in ("io", "load-tree")])
+        ctx.oblige("returns-the-workspace", result is me)
+
+
 class OpenResetsRegistries(Contract):
     """Workspace.open starts from empty registries for all five kinds (nothing of an earlier
     session of the same object survives)."""
@@ -285,4 +323,4 @@ for _k in ALL_OF:
     globals()[_k.__name__] = _k
 
 
-CONTRACTS = ALL_OF + [ParentSet, PropertyGroupRemove, PropertyGroupAdd, AddSaveConcatenated, OpenResetsRegistries]
+CONTRACTS = ALL_OF + [ParentSet, PropertyGroupRemove, PropertyGroupAdd, AddSaveConcatenated, OpenResetsRegistries, OpenOnOpenWorkspace]
